@@ -118,6 +118,25 @@ Theorem C18_args_untouched_unused_votes : forall korder stage_results max_seats_
   uv_evaluate korder stage_results max_seats_given d st prev = Ok (st', t') -> st' = st.
 Proof. exact uv_frame. Qed.
 
+(* shared default arguments: the object behind `prev_gains={}` is one more store location.  Called
+   WITH the default itself as prev_gains, the repaired distributor leaves it empty; and whatever
+   argument a modelled site is called with, a default object elsewhere in the store stays as it was *)
+Theorem C18_default_stays_empty_multistage : forall korder stages d st dflt st' t',
+  sget st dflt = Some [] ->
+  ms_evaluate korder stages true d st dflt = Ok (st', t') -> sget st' dflt = Some [].
+Proof.
+  intros korder stages d st dflt st' t' He H.
+  rewrite (ms_repaired_frame korder stages d st dflt st' t' H). exact He.
+Qed.
+
+Theorem C18_defaults_untouched_copy_then_mutate : forall levels st arg plan st' t' dflt,
+  (forall t, Forall (fun m => length (fst m) < levels) (plan t)) ->
+  copy_then_mutate levels st arg plan = Ok (st', t') -> sget st' dflt = sget st dflt.
+Proof.
+  intros levels st arg plan st' t' dflt Hp H.
+  rewrite (copy_then_mutate_frame levels st arg plan st' t' Hp H). reflexivity.
+Qed.
+
 (* hypotheses are satisfiable by a non-trivial input: the repaired code on the refutation witness
    succeeds, returns {N: {A: 2, B: 1}} and leaves the store alone *)
 Example C18_multistage_example :
@@ -161,3 +180,5 @@ Print Assumptions C18_args_untouched_multistage.
 Print Assumptions C18_args_untouched_multistage_pinned_depth1.
 Print Assumptions C18_args_untouched_multistage_pinned_refuted.
 Print Assumptions C18_args_untouched_unused_votes.
+Print Assumptions C18_default_stays_empty_multistage.
+Print Assumptions C18_defaults_untouched_copy_then_mutate.
